@@ -60,6 +60,9 @@ def compare_maps(run, dom, rule, where, label, got, shape, nans, loc, out_scale=
                 lost.append('(%d, %d): %s' % (i, j, v.why))
                 continue
             if isinstance(v, Junk):
+                if want_nan and is_nan(getattr(v, 'maybe', None)):
+                    lost.append('(%d, %d): invalid, or %s' % (i, j, v.why))
+                    continue
                 bad.append('sample (%d, %d) comes back as %s' % (i, j, v.why))
                 continue
             if want_nan:
@@ -94,7 +97,17 @@ def compare_maps(run, dom, rule, where, label, got, shape, nans, loc, out_scale=
 def codev_compose_rules(run, db):
     fw, fr = db.func(IO + 'write_codev_gridint'), db.func(IO + 'read_codev_gridint')
     n_ok = 0
-    for shape, nans in CASES:
+    # sizes at which the packing into lines changes: a map with as many samples as a line length the writer names (585 values per line)
+    widths = set()
+    mod = fw.module
+    for n in ast.walk(fw.node):
+        if isinstance(n, ast.Constant) and isinstance(n.value, int) and not isinstance(n.value, bool) and 16 <= n.value <= 2000:
+            widths.add(n.value)
+        if isinstance(n, ast.Name) and n.id in getattr(mod, 'assigns', {}):
+            e = mod.assigns[n.id]
+            if isinstance(e, ast.Constant) and isinstance(e.value, int) and not isinstance(e.value, bool) and 16 <= e.value <= 2000:
+                widths.add(e.value)
+    for shape, nans in CASES + tuple(((1, w), ()) for w in sorted(widths)[:3]):
         it, dom = file_interp(db)
         dom.count_range = (-32767, 32767)
         dom.file_keys = {'F'}
@@ -107,16 +120,467 @@ def codev_compose_rules(run, db):
             content = _file_of(wp)
             if content is None:
                 raise AnalysisError('%s: what the writer writes is not followed (no file content on the path %s)' % (label, wp.conds))
+            if shape[0] * shape[1] <= 16 and codev_range(run, dom, fw, wp, content, label):
+                run.ok('C14.range', fw.qual, '%s (writer path %s): every stored count is bounded by 32767 in magnitude' % (label, list(wp.conds)))
             dom.files = {'F': content}
             rres = it.run(fr, kwargs=lambda: {'file': Const('F')})
             for rp in rres:
                 if rp.outcome != 'return':
-                    run.finding('C14.compose', fr.qual, label, '%s: the reader raises %s on the file the writer wrote (writer path %s)' % (label, getattr(rp.value, 'exc', rp.value), wp.conds), fr.loc())
+                    run.finding('C14.compose', fr.qual, label, '%s: the reader raises %s on the file the writer wrote (writer path %s)' % (label, getattr(getattr(rp.value, 'exc', rp.value), 'v', rp.value), wp.conds), fr.loc())
                     continue
                 v = rp.value
                 got = v.items[0] if isinstance(v, Tup) and v.items else v
                 if compare_maps(run, dom, 'C14.compose', fr.qual, label, got, shape, nans, fr.loc()):
                     run.ok('C14.compose', fr.qual, '%s (writer path %s, reader path %s): shape, orientation, invalid samples and values (up to the quantisation) come back'
                            % (label, [c for c in wp.conds], [c for c in rp.conds]))
+                    n_ok += 1
+    return n_ok
+
+
+ZYGO_RANGE = (-(2 ** 31), 2147483639)
+
+
+def _dict_get(d, key):
+    if isinstance(d, DictV):
+        return d.get(Const(key))
+    return None
+
+
+def _frame(dom, kind):
+    if kind is None:
+        return Const(None)
+    from ..domains.filedom import DType
+    return FArr.of((2, 2), [dom.sym('frame%d' % k) for k in range(4)], None if kind == 'f8' else DType('u', 2))
+
+
+def zygo_write(it, dom, fw, shape, nans, label, frame=None):
+    wres = it.run(fw, kwargs=lambda: {'file': Const('F'), 'phase': _input(dom, shape, nans), 'dx': dom.sym('dx'), 'wavelength': dom.sym('wavelength'), 'intensity': _frame(dom, frame)})
+    wpaths = [p for p in wres if p.outcome == 'return']
+    if not wpaths:
+        raise AnalysisError('%s: the writer has no returning path (%s)' % (label, [getattr(p.value, 'exc', p.value) for p in wres][:3]))
+    out = []
+    for wp in wpaths:
+        content = _file_of(wp)
+        if not isinstance(content, BytesV):
+            raise AnalysisError('%s: what the writer writes is not followed' % label)
+        out.append((wp, content))
+    return out
+
+
+def zygo_compose_rules(run, db):
+    fw, fr = db.func(IO + 'write_zygo_dat'), db.func(IO + 'read_zygo_dat')
+    n_ok = 0
+    for shape, nans, frame in [c + (None,) for c in CASES] + [CASES[0] + ('f8',), CASES[0] + ('u2',)]:
+        it, dom = file_interp(db)
+        dom.count_range = ZYGO_RANGE
+        dom.file_keys = {'F'}
+        label = 'write_zygo_dat -> read_zygo_dat, %dx%d map%s%s' % (shape[0], shape[1], (' with an invalid sample at flat position %s' % list(nans)) if nans else '',
+                                                                    '' if frame is None else ', with a 2x2 %s camera frame' % {'f8': 'float64', 'u2': 'uint16'}[frame])
+        for wp, content in zygo_write(it, dom, fw, shape, nans, label, frame):
+            dom.files = {'F': BytesV(content.items)}
+            rres = it.run(fr, kwargs=lambda: {'file': Const('F'), 'multi_intensity_action': Const('first')})
+            for rp in rres:
+                if rp.outcome != 'return':
+                    run.finding('C14.compose', fr.qual, label, '%s: the reader raises %s on the file the writer wrote' % (label, getattr(rp.value, 'exc', rp.value)), fr.loc())
+                    continue
+                got = _dict_get(rp.value, 'phase')
+                if got is None:
+                    raise AnalysisError('%s: the reader does not return a dictionary with a phase entry that is followed' % label)
+                ok = compare_maps(run, dom, 'C14.compose', fr.qual, label, got, shape, nans, fr.loc())
+                meta = _dict_get(rp.value, 'meta')
+                for key, want, unit in (('wavelength', Rat(dom.R.atom('wavelength')) / 1000000, 'um -> m'), ('lateral_resolution', Rat(dom.R.atom('dx')) / 1000, 'mm -> m')):
+                    mv = _dict_get(meta, key)
+                    r = dom.rat(mv) if mv is not None else None
+                    if r is None:
+                        raise AnalysisError('%s: meta[%r] is not followed: %r' % (label, key, mv))
+                    if not (r == want):
+                        run.finding('C14.compose', fr.qual, label + ' ' + key, '%s: the header %s comes back as %s, the writer was given %s (%s)' % (label, key, r.key()[:80], want.key(), unit), fr.loc())
+                        ok = False
+                if ok:
+                    run.ok('C14.compose', fr.qual, '%s (reader path %s): shape, orientation, invalid samples, values (up to the quantisation), wavelength and spacing come back' % (label, list(rp.conds)))
+                    n_ok += 1
+    return n_ok
+
+
+def _sample_positions(dom, content, shape, nans):
+    """file order of the samples: for each 4-byte sample of the phase block (the last size*4 bytes), the map position it holds"""
+    n = shape[0] * shape[1]
+    block = content.items[len(content.items) - 4 * n:]
+    if len(block) != 4 * n:
+        raise AnalysisError('the phase block is shorter than the map')
+    where = []
+    nan_pos = [(k // shape[1], k % shape[1]) for k in nans]
+    for s in range(n):
+        items = block[4 * s:4 * s + 4]
+        if all(isinstance(x, int) for x in items):
+            where.append(('invalid', None))
+            continue
+        fids = {x[0] for x in items if not isinstance(x, int)}
+        if len(fids) != 1 or any(isinstance(x, int) for x in items):
+            raise AnalysisError('the phase block is not a sequence of whole samples')
+        code, val = dom.fields[list(fids)[0]]
+        r = dom.rat(val)
+        if r is None:
+            raise AnalysisError('a stored sample is not followed: %r' % (val,))
+        ats = [a for a in dom.strip_quant(r).atoms() if a.startswith('x') and '_' in a]
+        if len(set(ats)) != 1:
+            raise AnalysisError('a stored sample does not hold one sample of the map: %s' % r.key()[:80])
+        i, j = ats[0][1:].split('_')
+        where.append(('valid', (int(i), int(j))))
+    inv = [w for w in where if w[0] == 'invalid']
+    if len(inv) != len(nan_pos):
+        raise AnalysisError('the invalid samples of the phase block are not followed')
+    return where
+
+
+def zygo_truncation_rules(run, db):
+    """every cut of the written file: the reader raises, or warns and returns the map with every sample that is not wholly in the file
+    marked invalid (and no sample holding another sample's value)"""
+    fw, fr = db.func(IO + 'write_zygo_dat'), db.func(IO + 'read_zygo_dat')
+    n_ok = 0
+    for shape, nans in (((2, 3), (1,)), ((3, 1), ())):
+        it, dom = file_interp(db)
+        dom.count_range = ZYGO_RANGE
+        dom.file_keys = {'F'}
+        label0 = 'write_zygo_dat -> read_zygo_dat, %dx%d map' % shape
+        for wp, content in zygo_write(it, dom, fw, shape, nans, label0):
+            n = shape[0] * shape[1]
+            where = _sample_positions(dom, content, shape, nans)
+            total = len(content.items)
+            start = total - 4 * n
+            cuts = [start + v for v in range(0, 4 * n)] + [start - 1, start // 2, 9, 0]
+            for cut in cuts:
+                valid = cut - start
+                label = '%s, file cut to %d of %d bytes (%s)' % (label0, cut, total, ('%d bytes of the phase block left' % valid) if valid >= 0 else 'inside the header')
+                dom.files = {'F': BytesV(content.items[:cut])}
+                rres = it.run(fr, kwargs=lambda: {'file': Const('F'), 'multi_intensity_action': Const('first')})
+                for rp in rres:
+                    if rp.outcome != 'return':
+                        run.ok('C14.trunc', fr.qual, '%s: rejected with %s' % (label, getattr(rp.value, 'exc', rp.value)))
+                        n_ok += 1
+                        continue
+                    got = _dict_get(rp.value, 'phase')
+                    if not isinstance(got, FArr):
+                        raise AnalysisError('%s: what the reader returns is not followed: %r' % (label, got))
+                    bad = []
+                    lost = []
+                    if not any(e['kind'] == 'warn' for e in rp.events):
+                        bad.append('the reader returns without a warning')
+                    if valid >= 0 and tuple(got.shape) != tuple(shape):
+                        bad.append('the map comes back with shape %s' % (tuple(got.shape),))
+                    else:
+                        cells = got.values()
+                        # which output cell holds which file sample: by the full-file reading, the map position itself
+                        for s, (kind, pos) in enumerate(where):
+                            complete = valid >= 4 * (s + 1)
+                            if kind == 'invalid':
+                                continue
+                            v = cells[pos[0] * shape[1] + pos[1]] if valid >= 0 else None
+                            if v is None:
+                                continue
+                            if isinstance(v, Unknown):
+                                lost.append('(%d, %d): %s' % (pos[0], pos[1], v.why))
+                            elif is_nan(v):
+                                continue
+                            elif not complete:
+                                bad.append('sample (%d, %d), of which %d of 4 bytes are in the file, comes back as a number (%s)'
+                                           % (pos[0], pos[1], max(0, min(4, valid - 4 * s)), v.why if isinstance(v, Junk) else _cell_text(dom, v)))
+                            else:
+                                r = dom.rat(v)
+                                r = dom.strip_quant(r) if r is not None else None
+                                if r is None or not (r == Rat(dom.R.atom('x%d_%d' % pos))):
+                                    bad.append('sample (%d, %d), wholly in the file, comes back as %s' % (pos[0], pos[1], v.why if isinstance(v, Junk) else _cell_text(dom, v)))
+                        if valid < 0:
+                            for v in cells:
+                                if not is_nan(v):
+                                    bad.append('a file cut inside its header is read as a map with numbers in it')
+                                    break
+                    if lost and not bad:
+                        raise AnalysisError('%s: samples that are read back are not followed: %s' % (label, '; '.join(lost[:3])))
+                    if bad:
+                        run.finding('C14.trunc', fr.qual, 'cut: ' + ('phase block, %d mod 4 bytes' % (valid % 4) if valid >= 0 else 'header'),
+                                    '%s: %s' % (label, '; '.join(bad[:3])), fr.loc())
+                    else:
+                        run.ok('C14.trunc', fr.qual, '%s: warned, and every sample that is not wholly in the file is invalid' % label)
+                        n_ok += 1
+    return n_ok
+
+
+# ---------------------------------------------------------------------------------------------------------------------------------
+# the range of the stored counts (Code V): every count the writer stores fits int16 for every range of values
+def evalf(dom, r, env):
+    """the number a closed form takes for numbers given to the samples (order statistics, abs, max, quantisations evaluated)"""
+    R = dom.R
+
+    def atomv(a):
+        if a in env:
+            return env[a]
+        if a in dom.stats:
+            base, els = dom.stats[a]
+            vals = [ev(e) for e in els]
+            return {'min': min, 'max': max, 'mean': lambda v: sum(v) / len(v), 'ptp': lambda v: max(v) - min(v)}[base](vals)
+        if a in dom.tiny:
+            return 2.220446049250313e-16
+        info = R.info.get(a)
+        if info:
+            f, args = info[0], [ev(x) for x in info[1]]
+            if f == 'abs':
+                return abs(args[0])
+            if f in ('max', 'min'):
+                return (max if f == 'max' else min)(args)
+            if f in ('max_by_abs', 'min_by_abs'):
+                return (max if f == 'max_by_abs' else min)(args, key=abs)
+            if f == 'quant':
+                return float(round(args[0]))
+            if f == 'floordiv':
+                return float(args[0] // args[1])
+        raise KeyError(a)
+
+    def poly(p):
+        tot = 0.0
+        for mono, c in p.t.items():
+            term = float(c)
+            for a, k in mono:
+                term *= atomv(a) ** k
+            tot += term
+        return tot
+
+    def ev(x):
+        x = x if isinstance(x, Rat) else Rat(x)
+        return poly(x.num) / poly(x.den)
+    return ev(r)
+
+
+def _dominates(dom, M, u):
+    """is |u| <= M for every input?  M a closed form; u one sample (a Rat)"""
+    R = dom.R
+    ats = M.atoms()
+    if len(ats) != 1 or not (M == Rat(R.atom(list(ats)[0]))):
+        return False
+    m = list(ats)[0]
+
+    def abs_of(r):
+        a = list(r.atoms())
+        if len(a) == 1 and r == Rat(R.atom(a[0])) and R.info.get(a[0], ('',))[0] == 'abs':
+            return R.info[a[0]][1][0]
+        return None
+
+    def stat_of(r, neg=False):
+        rr = -r if neg else r
+        a = list(rr.atoms())
+        if len(a) == 1 and rr == Rat(R.atom(a[0])) and a[0] in dom.stats:
+            return dom.stats[a[0]]
+        return None
+
+    def holds(els):
+        return any((e == u) or (e == -u) for e in els)
+    if m in dom.stats:
+        base, els = dom.stats[m]
+        if base == 'max':
+            inner = [abs_of(e if isinstance(e, Rat) else Rat(e)) for e in els]
+            if all(i is not None for i in inner) and holds([i if isinstance(i, Rat) else Rat(i) for i in inner]):
+                return True
+        return False
+    info = R.info.get(m)
+    if info and info[0] == 'max_by_abs':
+        # the argument of largest magnitude, with its sign: in magnitude it is max(|a|, |b|, ...)
+        sts = [stat_of(a if isinstance(a, Rat) else Rat(a)) for a in info[1]]
+        los = [st[1] for st in sts if st and st[0] == 'min']
+        his = [st[1] for st in sts if st and st[0] == 'max']
+        return any(holds(lo) and holds(hi) for lo in los for hi in his)
+    if info and info[0] == 'max':
+        args = [a if isinstance(a, Rat) else Rat(a) for a in info[1]]
+        if any(_dominates(dom, a, u) for a in args):
+            return True
+        lo_sets, hi_sets = [], []
+        for a in args:
+            inner = abs_of(a)
+            if inner is not None:
+                inner = inner if isinstance(inner, Rat) else Rat(inner)
+                st = stat_of(inner)
+                if st and st[0] == 'min':
+                    lo_sets.append(st[1])
+                if st and st[0] == 'max':
+                    hi_sets.append(st[1])
+            st = stat_of(a)
+            if st and st[0] == 'max':
+                hi_sets.append(st[1])
+            st = stat_of(a, neg=True)
+            if st and st[0] == 'min':
+                lo_sets.append(st[1])
+        for lo in lo_sets:
+            for hi in hi_sets:
+                if holds(lo) and holds(hi):
+                    return True
+    return False
+
+
+WITNESS_PATTERNS = (('all positive, large', lambda k: 4.0e6 + 1.0e5 * k), ('all negative, large', lambda k: -4.0e6 - 1.0e5 * k), ('mixed', lambda k: (-1) ** k * (2.0e5 + 1.0e4 * k)),
+                    ('constant', lambda k: 2500.0), ('constant, negative', lambda k: -2500.0), ('tiny', lambda k: 1.0e-13 * (k + 1)), ('deep valley, low peak', lambda k: -9.0e5 if k == 0 else 1.0e3 + k),
+                    ('high peak, shallow valley', lambda k: 9.0e5 if k == 0 else -1.0e3 - k), ('zero', lambda k: 0.0))
+
+
+def codev_range(run, dom, fw, wp, content, label, limit=32767):
+    """True: every stored count proven within +/-limit on this writer path; a finding with a witness when one overflows"""
+    text = content if isinstance(content, str) else None
+    if text is None:
+        raise AnalysisError('%s: the written text is not followed' % label)
+    counts = []
+    for ch in text:
+        if ch in dom.holes:
+            val, exact = dom.holes[ch]
+            r = dom.rat(val)
+            if r is None:
+                continue
+            a = list(r.atoms())
+            if len(a) == 1 and r == Rat(dom.R.atom(a[0])) and dom.R.info.get(a[0], ('',))[0] == 'quant':
+                counts.append(dom.R.info[a[0]][1][0])
+    if not counts:
+        raise AnalysisError('%s: no stored counts found in the written text' % label)
+    counts = [c if isinstance(c, Rat) else Rat(c) for c in counts]
+    tests = [e for e in wp.events if e['kind'] == 'test']
+    xs = sorted({a for c in counts for a in _deep_atoms(dom, c) if a.startswith('x') and '_' in a})
+    proven = True
+    for e in counts:
+        q = e / limit
+        ok = False
+        # (a) q = u / M with |u| <= M
+        for m in _deep_atoms(dom, q, top_only=True):
+            M = Rat(dom.R.atom(m))
+            u = q * M
+            if not (set(u.atoms()) & {m}) and any(_dominates(dom, M, u * s) for s in (1,)):
+                ok = True
+                break
+            # u may carry the unit conversion on both sides: u = c*x, M over c*x as well -- covered by equality of the elements
+        # (b) a constant scale on a path whose tests bound the magnitude by a machine epsilon
+        if not ok:
+            for t in tests:
+                lt, rt = dom.rat(t['left']), dom.rat(t['right'])
+                if lt is None or rt is None:
+                    continue
+                small = rt if (t['op'] in ('Lt', 'LtE') and t['truth']) else (lt if (t['op'] in ('Gt', 'GtE') and t['truth']) else None)
+                big = lt if small is rt else rt
+                if small is None and not t['truth']:
+                    small = lt if t['op'] in ('Lt', 'LtE') else (rt if t['op'] in ('Gt', 'GtE') else None)
+                    big = rt if small is lt else lt
+                    small, big = (big, small) if small is not None else (None, None)      # not (a < b)  ==  b <= a
+                if small is None:
+                    continue
+                sa = list(small.atoms())
+                tiny = (len(sa) == 1 and sa[0] in dom.tiny and small == Rat(dom.R.atom(sa[0]))) or \
+                    (small.num.is_const() and small.den.is_const() and abs(small.num.const_value() / small.den.const_value()) <= 1)
+                if not tiny:
+                    continue
+                # big < tiny: if big dominates u and q = c*u with a moderate constant c, |q| < 1
+                for x in xs:
+                    pass
+                ats = [a for a in q.atoms()]
+                if q.den.is_const() and len(q.num.t) == 1:
+                    (mono, c), = q.num.t.items()
+                    if len(mono) == 1 and mono[0][1] == 1 and abs(c / q.den.const_value()) <= 2 ** 20:
+                        u = Rat(dom.R.atom(mono[0][0]))
+                        if _dominates(dom, big, u) or _dominates(dom, big, u * (c / q.den.const_value())) or any(_dominates(dom, big, u * k) for k in (Rat(dom.R.const(1)) / 1000,)):
+                            ok = True
+                            break
+        if not ok:
+            proven = False
+            break
+    if proven:
+        return True
+    # a witness: numbers for the samples that satisfy the tests of this path and push a stored count out of range
+    for name, gen in WITNESS_PATTERNS:
+        env = {x: gen(k) for k, x in enumerate(xs)}
+        try:
+            consistent = True
+            for t in tests:
+                lt, rt = dom.rat(t['left']), dom.rat(t['right'])
+                if lt is None or rt is None:
+                    raise KeyError('test')
+                import operator
+                f = {'Lt': operator.lt, 'LtE': operator.le, 'Gt': operator.gt, 'GtE': operator.ge, 'Eq': operator.eq, 'NotEq': operator.ne}.get(t['op'])
+                if f is None:
+                    raise KeyError('op')
+                if f(evalf(dom, lt, env), evalf(dom, rt, env)) != t['truth']:
+                    consistent = False
+                    break
+            if not consistent:
+                continue
+            vals = [evalf(dom, e, env) for e in counts]
+        except (KeyError, ZeroDivisionError, OverflowError, TypeError):
+            continue
+        worst = max(vals, key=abs)
+        if abs(worst) > limit + 0.5:
+            run.finding('C14.range', fw.qual, 'stored counts', '%s: for data that is %s (samples %s nm) the writer stores the count %.6g, outside +/-%d: it wraps in the cast to int16 and the reader '
+                        'returns a full-size map of wrong numbers (writer path %s)' % (label, name, ', '.join('%.4g' % env[x] for x in xs[:4]), worst, limit, [(t['text'], t['truth']) for t in tests]), fw.loc())
+            return False
+    raise AnalysisError('%s: the stored counts (%s) are neither proven to fit int16 nor shown to overflow' % (label, counts[0].key()[:100]))
+
+
+def _deep_atoms(dom, r, top_only=False):
+    out = set()
+    todo = [r]
+    seen = set()
+    while todo:
+        x = todo.pop()
+        x = x if isinstance(x, Rat) else Rat(x)
+        for a in x.atoms():
+            if a in seen:
+                continue
+            seen.add(a)
+            out.add(a)
+            if top_only:
+                continue
+            if a in dom.stats:
+                todo.extend(dom.stats[a][1])
+            info = dom.R.info.get(a)
+            if info:
+                todo.extend(info[1])
+    return out
+
+
+def interferogram_compose_rules(run, db):
+    """Interferogram.save_zygo_dat -> Interferogram.from_zygo_dat: the object that is loaded holds the map, the spacing and the wavelength
+    of the object that was saved (the unit conversions around the file layer compose to the identity)"""
+    from ..core.interp import Obj
+    ci = db.cls('prysm.interferogram.Interferogram')
+    fs, fl = db.func('prysm.interferogram.Interferogram.save_zygo_dat'), db.func('prysm.interferogram.Interferogram.from_zygo_dat')
+    n_ok = 0
+    for shape, nans in CASES[:2]:
+        it, dom = file_interp(db)
+        dom.count_range = ZYGO_RANGE
+        dom.file_keys = {'F'}
+        label = 'Interferogram.save_zygo_dat -> Interferogram.from_zygo_dat, %dx%d map' % shape
+
+        def mk():
+            o = Obj(ci)
+            o.attrs.update({'data': _input(dom, shape, nans), 'dx': dom.sym('DX'), 'wavelength': dom.sym('WL'), 'intensity': Const(None), 'meta': Const(None),
+                            '_latcaled': Unknown('calibration flag')})
+            return o
+        saved = [p for p in it.run(fs, kwargs=lambda: {'file': Const('F')}, self_obj=mk) if p.outcome == 'return']
+        if not saved:
+            raise AnalysisError('%s: save has no returning path' % label)
+        for sp in saved:
+            content = _file_of(sp)
+            if not isinstance(content, BytesV):
+                raise AnalysisError('%s: what save writes is not followed (path %s)' % (label, sp.conds))
+            dom.files = {'F': BytesV(content.items)}
+            for lp in it.run(fl, kwargs=lambda: {'path': Const('F'), 'multi_intensity_action': Const('first')}):
+                if lp.outcome != 'return':
+                    run.finding('C14.compose', fl.qual, label, '%s: loading the saved file raises %s' % (label, getattr(getattr(lp.value, 'exc', lp.value), 'v', lp.value)), fl.loc())
+                    continue
+                o = lp.value
+                if not isinstance(o, Obj):
+                    raise AnalysisError('%s: what the loader returns is not followed: %r' % (label, o))
+                ok = compare_maps(run, dom, 'C14.compose', fl.qual, label, o.attrs.get('data'), shape, nans, fl.loc())
+                for attr, atom, what in (('dx', 'DX', 'spacing'), ('wavelength', 'WL', 'wavelength')):
+                    r = dom.rat(o.attrs.get(attr)) if o.attrs.get(attr) is not None else None
+                    if r is None:
+                        raise AnalysisError('%s: the %s of the loaded object is not followed: %r' % (label, what, o.attrs.get(attr)))
+                    if not (r == Rat(dom.R.atom(atom))):
+                        run.finding('C14.compose', fl.qual, label + ' ' + what, '%s: an object saved with %s %s is loaded with %s %s (save path %s)'
+                                    % (label, what, atom, what, r.key()[:100], list(sp.conds)), fl.loc())
+                        ok = False
+                if ok:
+                    run.ok('C14.compose', fl.qual, '%s (save path %s, load path %s): map, spacing and wavelength come back' % (label, list(sp.conds), list(lp.conds)))
                     n_ok += 1
     return n_ok
